@@ -185,13 +185,9 @@ class redis_lock(base_lock):
         '''
         lock.get()
         '''
-        # We need getset to be race-free
-        previous = self.redis.getset(self.name, _LOCKED)
-
-        if previous == _FAILED:
-            self.redis.set(self.name, previous)
-
-        return (previous is None)
+        # We need setnx to be race-free: it never overwrites an existing
+        # (locked or failed) marker
+        return bool(self.redis.setnx(self.name, _LOCKED))
 
 
     def release(self):
